@@ -16,6 +16,7 @@ class G:
         self.max_depth = max_depth
         self.n = 0
 
+    locking = True           # C03: FOR UPDATE / FOR SHARE is outside the formatter-supported fragment
     mark_as = False          # C09: emit the optional AS as a marker so that both spellings can be produced from one statement
 
     def opt_as(self):
@@ -179,7 +180,7 @@ class G:
             if r.random() < 0.5:
                 sql += " offset %d rows" % r.randint(1, 99)
             sql += " fetch %s %d rows only" % (r.choice(["first", "next"]), r.randint(1, 99))
-        if r.random() < 0.08:
+        if r.random() < 0.08 and self.locking:
             sql += " for %s of %s%s" % (r.choice(["update", "share"]), self.ident("t"), r.choice(["", " nowait"]))
         return sql
 
